@@ -25,7 +25,7 @@ SPEC = dict(
          "end and contained at least one trim (log exceeded the maximum), one collapse of an immediate repeat and one save -> load cycle. "
          "histfiles: case = one file content; non-trivial = a distinct content that is a valid JSON object or a truncation of a valid "
          "file. evaluations = histories + files (operations are in coverage.histmodel_operations).",
-    floors=T({"cli-history-sessions": 40, "cli-history-with-repeats": 15, "evaluations": 7500, "distinct_nontrivial": 2500, "trim": 1500, "collapse": 3500, "save-load-cycles": 2500, "clear": 1000,
+    floors=T({"cli-history-sessions": 40, "cli-history-with-repeats": 15, "evaluations": 7500, "distinct_nontrivial": 2500, "trim": 1500, "collapse": 2500, "save-load-cycles": 2500, "clear": 1000,
               "save-verified": 20000, "files-valid": 600, "files-truncated": 600, "files-garbage": 800, "files-maxsize-nonpositive": 300, "files-short-exhaustive": 92792, "files-timestamps-out-of-order": 40},
              {"evaluations": 150000, "distinct_nontrivial": 50000, "trim": 30000, "collapse": 70000, "save-load-cycles": 50000,
               "clear": 20000, "save-verified": 400000, "files-valid": 12000, "files-truncated": 12000, "files-garbage": 16000,
